@@ -43,7 +43,7 @@ pub fn digest_case(case: &Case, keep_events: bool) -> (u64, Vec<u64>, usize, Vec
     let rec = match st {
       Step::Set(r, v) => { d.set(*r, *v); continue; }
       Step::Arm(o, r, on) => { d.arm(*o, *r, *on); continue; }
-      Step::PanicAt(_) => continue,
+      Step::PanicAt(_) | Step::PanicAtAny(_) => continue,
       Step::TopDown(roots) => d.session(None, roots),
       Step::BottomUp(roots) => { let ch: Vec<u32> = d.pending.iter().copied().collect(); let r = d.session(Some(ch), roots); d.pending.clear(); r }
     };
